@@ -20,19 +20,34 @@ except FileNotFoundError:
     ENTRIES = []
 _DISABLED = os.environ.get('VERIF_NO_KF') == '1'
 
-_BY_HARNESS = {}
+import fnmatch as _fn
+
+_OPEN = []
 for _e in ENTRIES:
     if _e.get('status', 'open') == 'open':
-        _BY_HARNESS.setdefault(_e['harness'], []).append(
-            compile(_e['when'], '<known_findings:%s>' % _e.get('id', '?'), 'eval'))
+        _OPEN.append((_e.get('applies_to') or [_e['harness']],
+                      compile(_e['when'], '<known_findings:%s>' % _e.get('id', '?'), 'eval')))
+_CACHE = {}
 
 
-def skip(harness_id, **args):
-    """True if the arguments fall into the input class of an open known finding."""
+def _codes(harness_id):
+    if harness_id not in _CACHE:
+        _CACHE[harness_id] = [c for pats, c in _OPEN if any(_fn.fnmatchcase(harness_id, p) for p in pats)]
+    return _CACHE[harness_id]
+
+
+def skip(harness_id, **facts):
+    """True if the arguments/facts fall into the input class of an open known finding
+    (`when` is a Python predicate over the harness arguments or over input-class facts
+    the harness computes, e.g. attr_ws = "some attribute-carried string holds TAB/CR/LF")."""
     if _DISABLED:
         return False
-    for code in _BY_HARNESS.get(harness_id, ()):
-        if eval(code, {'__builtins__': __builtins__}, args):  # may fork under CrossHair
+    for code in _codes(harness_id):
+        try:
+            hit = eval(code, {'__builtins__': __builtins__}, facts)  # may fork under CrossHair
+        except NameError:
+            hit = False          # predicate talks about facts this call site does not provide
+        if hit:
             return True
     return False
 
